@@ -242,3 +242,39 @@ func TestF15(t *testing.T) {
 		t.Fatalf(`/advertx{0,2}zone/ does not fire on advertzone (shortcut %q)`, mk(t, `/advertx{0,2}zone/`).Shortcut)
 	}
 }
+
+// F16: of two class escapes in a row only the first is stripped; the letter of the second
+// becomes literal text of the shortcut.
+func TestF16(t *testing.T) {
+	if !regexRuleFires(t, `/adzone\d\wbanner/`, "http://example.org/adzone5_banner") {
+		t.Fatalf(`/adzone\d\wbanner/ does not fire on adzone5_banner (shortcut %q)`, mk(t, `/adzone\d\wbanner/`).Shortcut)
+	}
+}
+
+// F17: the digits of a hexadecimal escape (\xHH) become literal text of the shortcut.
+func TestF17(t *testing.T) {
+	if !regexRuleFires(t, `/ad\x41zonebanner/`, "http://example.org/adAzonebanner") {
+		t.Fatalf(`/ad\x41zonebanner/ does not fire on adAzonebanner (shortcut %q)`, mk(t, `/ad\x41zonebanner/`).Shortcut)
+	}
+}
+
+// F18: the same for an octal escape.
+func TestF18(t *testing.T) {
+	if !regexRuleFires(t, `/ad\101zonebanner/`, "http://example.org/adAzonebanner") {
+		t.Fatalf(`/ad\101zonebanner/ does not fire on adAzonebanner (shortcut %q)`, mk(t, `/ad\101zonebanner/`).Shortcut)
+	}
+}
+
+// F19: the name of a one-letter Unicode class (\pL) becomes literal text of the shortcut.
+func TestF19(t *testing.T) {
+	if !regexRuleFires(t, `/ad\pLzonebanner/`, "http://example.org/adxzonebanner") {
+		t.Fatalf(`/ad\pLzonebanner/ does not fire on adxzonebanner (shortcut %q)`, mk(t, `/ad\pLzonebanner/`).Shortcut)
+	}
+}
+
+// F20: a character repeated exactly zero times (x{0}) stays in the shortcut.
+func TestF20(t *testing.T) {
+	if !regexRuleFires(t, `/advertx{0}zone/`, "http://example.org/advertzone") {
+		t.Fatalf(`/advertx{0}zone/ does not fire on advertzone (shortcut %q)`, mk(t, `/advertx{0}zone/`).Shortcut)
+	}
+}
